@@ -25,6 +25,7 @@ import (
 	"strconv"
 	"strings"
 	"syscall"
+	"time"
 
 	sadns "github.com/bokysan/socketace/v2/internal/streams/dns"
 	"github.com/bokysan/socketace/v2/internal/streams/dns/commands"
@@ -351,8 +352,24 @@ func dsRun(line string) (result, monitor string, nMsgs int, classes []string) {
 		return "bad-op", "", 0, nil
 	}
 	ops := toks[i+1:]
+	// T:<ct>:<ot> — run with shortened ConnectionTimeout / OldConnectionTimeout (seconds); `s:<n>` ops then sleep
+	for _, t := range toks[1:i] {
+		if strings.HasPrefix(t, "T:") {
+			f := strings.Split(t, ":")
+			if len(f) != 3 {
+				return "bad-op", "", 0, nil
+			}
+			ct, _ := strconv.Atoi(f[1])
+			ot, _ := strconv.Atoi(f[2])
+			oldC, oldO := sadns.ConnectionTimeout, sadns.OldConnectionTimeout
+			sadns.ConnectionTimeout, sadns.OldConnectionTimeout = time.Duration(ct)*time.Second, time.Duration(ot)*time.Second
+			defer func() { sadns.ConnectionTimeout, sadns.OldConnectionTimeout = oldC, oldO }()
+		}
+	}
 	w := dsNewWorld(string(domb))
 	defer w.comm.Close()
+	start := time.Now()
+	elapsed := 0
 	var answers []string
 	note := func(m string) {
 		if monitor == "" {
@@ -477,6 +494,11 @@ func dsRun(line string) (result, monitor string, nMsgs int, classes []string) {
 					}
 				}
 			}
+		case "s":
+			// sleep until <elapsed> seconds after the creation of the listener (absolute schedule: no drift)
+			n, _ := strconv.Atoi(f[1])
+			elapsed += n
+			time.Sleep(time.Until(start.Add(time.Duration(elapsed) * time.Second)))
 		default:
 			return "bad-op", "", 0, nil
 		}
@@ -533,6 +555,7 @@ func init() {
 		_ = syscall.Setrlimit(syscall.RLIMIT_AS, &lim)
 	}
 	register("dnssess", dsComp{})
+	register("dnsexpire", dxComp{})
 }
 
 type dsComp struct{}
@@ -569,6 +592,38 @@ func dsExec(comp, prefix, op string) (string, string, string, bool) {
 }
 
 func (dsComp) Exec(op string) (string, string, string, bool) { return dsExec("dnssess", "", op) }
+
+// dnsexpire: the same driver, real time: the pruning goroutine of the real listener runs (it sleeps one minute between
+// runs and cannot be called), with ConnectionTimeout / OldConnectionTimeout shortened through the package variables.
+// One history takes ~75 s, so it is generated in the thorough tier only.
+type dxComp struct{}
+
+func (dxComp) Exec(op string) (string, string, string, bool) {
+	res, mon, _, nt := dsExec("dnsexpire", "", op)
+	return res, mon, "expiry-history", nt
+}
+
+func (dxComp) Gen(r *Rand, tier string, emit func(string)) {
+	if tier != "thorough" {
+		return
+	}
+	b := dsNewBuilder(r, "t.co")
+	b.orTok = append(b.orTok, "T:40:50")
+	b.open("a1", sadns.ProtocolVersion)                                    // A: id 0
+	b.open("a3", sadns.ProtocolVersion)                                    // C: id 1, never heard of again
+	b.options("a1", 0, &commands.SetOptionsRequest{Closed: bp(true)})      // A retired at t=0
+	b.open("a2", sadns.ProtocolVersion)                                    // B re-uses id 0
+	b.write(2, []byte("data for B"))
+	b.ops = append(b.ops, "s:30")
+	b.packet("a2", 0, 65535, nil, 40) // B heard at t=30
+	b.ops = append(b.ops, "s:25")
+	b.packet("a2", 0, 65535, nil, 40) // B heard at t=55
+	b.ops = append(b.ops, "s:20")     // the pruning task ran at t=60: C is stale (40 s), A's retired entry is stale (50 s)
+	b.packet("a2", 0, 65535, nil, 40) // t=75: B must still be served
+	b.packet("a3", 1, 65535, nil, 40) // C is gone
+	b.packet("a1", 0, 65535, nil, 40) // A's id belongs to B now: BADIP (its retired entry is gone)
+	emit(b.line())
+}
 
 // ---------------------------------------------------------------- generation
 
